@@ -40,7 +40,9 @@ theorem poly_ops_eval {σ : Type} [DecidableEq σ] [Ord σ] (env : σ → R) (p 
 
 /-! ### The right-hand side is `Nᵀ·r` -/
 
-/-- **`get_odesys`: the generated right-hand side is the kinetic model.**  For every accepted build:
+/-- **`get_odesys`, internal form (holds without any hypothesis on names, also on `name_capture_defect_witness`).**
+    It speaks about the rate constants and concentrations *as the `variables` dict resolves them* (`rateVal`, `cval`); the
+    statement in the user's terms is `rhs_is_kinetic_model` below.  For every accepted build:
     the dependent-variable names are the substance keys in the system's order, there is exactly one expression per
     substance, every rate constant has a value or a symbol, and the expression of the `i`-th substance `s` evaluates — for
     every binding of the symbols, in every commutative ℚ-algebra — to
@@ -64,7 +66,7 @@ theorem rhs_is_NT_r (cfg : Cfg) (sys : Sys) (o : OdeSys) (hnd : sys.subst.Nodup)
   refine ⟨e, he, ?_⟩
   rw [hev, feedVal_cstrOf _ env cfg.cstr (List.mem_of_getElem? hs)]
 
-/-- **`_create_odesys`: the same identity for the alternative builder.** -/
+/-- **`_create_odesys`, internal form** (see `rhs'_is_kinetic_model` for the statement in the user's terms). -/
 theorem rhs'_is_NT_r (cfg : Cfg') (sys : Sys) (o : OdeSys') (hnd : sys.subst.Nodup) (h : buildRhs' cfg sys = .ok o)
     (env : String → R) :
     o.names = sys.subst ∧ o.exprs.length = sys.subst.length ∧
@@ -93,49 +95,163 @@ theorem rate_exprs_spec (cfg : Cfg) (sys : Sys) (o : OdeSys) (h : buildRhs cfg s
   subst ho
   exact (resolveAll_spec _ env "" sys.rxns rs hrs).2.1
 
-/-! ### Which symbols are free -/
+/-! ### The right-hand side is `Nᵀ·r` in the user's terms
 
-/-- **The `variables` dict**: a substituted key is its constant; any other key that is a substance or a parameter name is the
-    symbol of that name (bound by `env`); nothing else is defined.  (`subs` is a Python dict: its keys are distinct.) -/
-theorem variables_spec (names ps : List String) (subs : List (String × ℚ)) (hnd : (dkeys subs).Nodup) (env : String → R)
-    (k : String) :
-    (∀ v, dget? subs k = some v → cval (mkVars names ps subs) env k = algebraMap ℚ R v) ∧
-      (k ∉ dkeys subs → (k ∈ ps ∨ k ∈ names) → cval (mkVars names ps subs) env k = env k) ∧
-      (k ∉ dkeys subs → ¬ (k ∈ ps ∨ k ∈ names) → dmem (mkVars names ps subs) k = false) := by
-  refine ⟨?_, ?_, ?_⟩
-  · intro v hv
-    simp only [cval, lookup, dgetD, dget?_mkVars_subs names ps subs hnd hv, ev_const]
-  · intro hk hm
-    simp only [cval, lookup, dgetD, dget?_mkVars_not_subs names ps subs hk, if_pos hm, ev_var]
-  · intro hk hm
-    simp only [dmem, dget?_mkVars_not_subs names ps subs hk, if_neg hm, Option.isSome_none]
+`kineticRhs subs cstr env rxns s = Σ_r netOf r s · (kOf subs env r.param · ∏_{(j,ν) ∈ reac r} (env j)^ν) + [cstr] F·(c_feed,s − env s)`
+where `env j` is the concentration of substance `j` (bound by its name), `kOf` is the reaction's own rate constant — the STORED
+constant of a plain or named parameter (the substituted value if its key is substituted), the binding `env uk` of a value-less
+key `uk` — and `F`, `c_feed,s` are `env "feedratio"`, `env ("fc_" ++ s)` (or their substituted values).  No `mkVars`, no
+`resolve`, no `cval`.  `noCapture` (decidable) says that the name spaces merged by `variables` do not overlap. -/
 
-/-- **How a rate constant enters** (`Expr.arg` on the `variables` dict), by kind of parameter:
-    a plain number is inlined; a named constant `MassAction([k], unique_keys=[uk])` is the substituted value if `uk` is
-    substituted, else the free symbol `uk` if `uk` is exposed as a parameter, else its stored constant `k`;
-    a value-less key (string parameter, `Symbol` argument) is the substituted value, else the free symbol, else an error. -/
-theorem rate_coeff_spec (names ps : List String) (subs : List (String × ℚ)) (hnd : (dkeys subs).Nodup) (uk : String) (k : ℚ) :
-    resolve (mkVars names ps subs) (.raw k) = some (Poly.const k) ∧
-    resolve (mkVars names ps subs) (.ma k) = some (Poly.const k) ∧
-    (∀ v, dget? subs uk = some v →
-      resolve (mkVars names ps subs) (.named uk k) = some (Poly.const v) ∧
-      resolve (mkVars names ps subs) (.key uk) = some (Poly.const v) ∧
-      resolve (mkVars names ps subs) (.sym uk) = some (Poly.const v)) ∧
-    (uk ∉ dkeys subs → (uk ∈ ps ∨ uk ∈ names) →
-      resolve (mkVars names ps subs) (.named uk k) = some (Poly.var uk) ∧
-      resolve (mkVars names ps subs) (.key uk) = some (Poly.var uk) ∧
-      resolve (mkVars names ps subs) (.sym uk) = some (Poly.var uk)) ∧
-    (uk ∉ dkeys subs → ¬ (uk ∈ ps ∨ uk ∈ names) →
-      resolve (mkVars names ps subs) (.named uk k) = some (Poly.const k) ∧
-      resolve (mkVars names ps subs) (.key uk) = none ∧
-      resolve (mkVars names ps subs) (.sym uk) = none) := by
-  refine ⟨rfl, rfl, ?_, ?_, ?_⟩
-  · intro v hv
-    simp [resolve, dget?_mkVars_subs names ps subs hnd hv]
-  · intro h1 h2
-    simp [resolve, dget?_mkVars_not_subs names ps subs h1, h2]
-  · intro h1 h2
-    simp [resolve, dget?_mkVars_not_subs names ps subs h1, h2]
+/-- **`get_odesys`: the generated right-hand side is the kinetic model of the user's reaction system.**  For every system and
+    configuration accepted by the builder, if no name is captured (`noCapture`), then for every binding `env` of the free
+    symbols — concentrations by substance key, exposed parameters by their names — that binds each exposed named constant to
+    its stored value (only relevant for `include_params=False`): names = substance keys in order, one expression per
+    substance, and the expression of substance `s` evaluates to row `s` of `Nᵀ·r` (+ feed), with each reaction's OWN constant
+    and the substances' OWN concentrations. -/
+theorem rhs_is_kinetic_model (cfg : Cfg) (sys : Sys) (o : OdeSys) (hnd : sys.subst.Nodup) (hsub : (dkeys cfg.subs).Nodup)
+    (h : buildRhs cfg sys = .ok o) (hnc : noCapture sys (dkeys cfg.subs) cfg.cstr = true) (env : String → R)
+    (hbind : cfg.includeParams = false → ∀ r ∈ sys.rxns, ∀ uk k, r.param = .named uk k → uk ∉ dkeys cfg.subs →
+      env uk = algebraMap ℚ R k) :
+    o.names = sys.subst ∧ o.exprs.length = sys.subst.length ∧
+      (o.rateExprs.map (ev env) =
+        sys.rxns.map fun r => kOf cfg.subs env r.param * (r.reac.map fun jν => env jν.1 ^ jν.2).prod) ∧
+      ∀ (i : ℕ) (s : String), sys.subst[i]? = some s → ∃ e, o.exprs[i]? = some e ∧
+        ev env e = kineticRhs cfg.subs cfg.cstr env sys.rxns s := by
+  obtain ⟨hreacN, hukN, hsubsN, hcsN, hukC⟩ := (noCapture_iff _ _ _).mp hnc
+  obtain ⟨_, _, _, _, _, rs, exprs, hrs, hneed, hread, ho⟩ := buildRhs_ok h
+  subst ho
+  obtain ⟨hl, hi⟩ := core_spec _ sys.rxns rs sys.subst _ exprs (cstrOf_nodup hnd) hrs hread env
+  have hspec := resolveAll_spec (R := R) _ env "" sys.rxns rs hrs
+  have hrate : ∀ r ∈ sys.rxns, rateVal (mkVars sys.subst (paramNamesOf cfg sys) cfg.subs) env r =
+      kOf cfg.subs env r.param * (r.reac.map fun jν => env jν.1 ^ jν.2).prod := by
+    intro r hr
+    apply rateVal_explicit sys.subst _ cfg.subs hsub env r (hreacN r hr) hsubsN
+      (fun uk huk => hukN uk (mem_oriUk.mpr ⟨r, hr, huk⟩)) ?_ (hspec.2.2 r hr).1
+    intro uk k hp hns hps
+    cases hi' : cfg.includeParams with
+    | false => exact hbind hi' r hr uk k hp hns
+    | true =>
+      exfalso
+      rw [mem_paramNamesOf] at hps
+      rcases hps with hps | ⟨hf, _⟩
+      · exact hukC uk (mem_oriUk.mpr ⟨r, hr, by simp [hp, RateParam.uniqueKey?]⟩) ((mem_allPk _ _ _).mp hps).1
+      · rw [hi'] at hf; cases hf
+  refine ⟨rfl, hl, ?_, ?_⟩
+  · show (rs.map (massAction (lookup _))).map (ev env) = _
+    rw [hspec.2.1]
+    exact List.map_congr_left hrate
+  intro i s hs
+  obtain ⟨e, he, hev⟩ := hi i s hs
+  refine ⟨e, he, ?_⟩
+  have hmem : s ∈ sys.subst := List.mem_of_getElem? hs
+  rw [hev, feedVal_cstrOf _ env cfg.cstr hmem]
+  unfold kineticRhs
+  congr 1
+  · congr 1
+    apply List.map_congr_left
+    intro r hr
+    rw [hrate r hr]
+  · by_cases hc : cfg.cstr = true
+    · have hneed' : ∀ k ∈ cstrNeeded (cstrOf true sys.subst),
+          dmem (mkVars sys.subst (paramNamesOf cfg sys) cfg.subs) k = true := by simpa [hc] using hneed
+      obtain ⟨m1, m2, m3⟩ := mem_cstrNeeded hmem
+      rw [if_pos hc, if_pos hc, cval_eq_pval _ _ _ hsub env (hneed' _ m1), cval_eq_pval _ _ _ hsub env (hneed' _ m2),
+        cval_eq_pval _ _ _ hsub env (hneed' _ m3), pval_of_not_subs cfg.subs env (fun hk => hsubsN s hk hmem)]
+    · rw [if_neg hc, if_neg hc]
+
+/-- **`_create_odesys`: the same statement for the alternative builder.**  Named constants are always exposed there, so the
+    binding hypothesis is unconditional; `parameter_expressions` plays the role of the substitutions. -/
+theorem rhs'_is_kinetic_model (cfg : Cfg') (sys : Sys) (o : OdeSys') (hnd : sys.subst.Nodup) (hsub : (dkeys cfg.paramExprs).Nodup)
+    (h : buildRhs' cfg sys = .ok o) (hnc : noCapture sys (dkeys cfg.paramExprs) cfg.cstr = true) (env : String → R)
+    (hbind : ∀ r ∈ sys.rxns, ∀ uk k, r.param = .named uk k → uk ∉ dkeys cfg.paramExprs → env uk = algebraMap ℚ R k) :
+    o.names = sys.subst ∧ o.exprs.length = sys.subst.length ∧
+      ∀ (i : ℕ) (s : String), sys.subst[i]? = some s → ∃ e, o.exprs[i]? = some e ∧
+        ev env e = kineticRhs cfg.paramExprs cfg.cstr env sys.rxns s := by
+  obtain ⟨hreacN, hukN, hsubsN, hcsN, hukC⟩ := (noCapture_iff _ _ _).mp hnc
+  obtain ⟨ks, _, _, _, _, rs, exprs, hrs, hread, ho⟩ := buildRhs'_ok h
+  subst ho
+  obtain ⟨hl, hi⟩ := core_spec _ sys.rxns rs sys.subst _ exprs (cstrOf_nodup hnd) hrs hread env
+  have hspec := resolveAll_spec (R := R) _ env "" sys.rxns rs hrs
+  refine ⟨rfl, hl, ?_⟩
+  intro i s hs
+  obtain ⟨e, he, hev⟩ := hi i s hs
+  refine ⟨e, he, ?_⟩
+  have hmem : s ∈ sys.subst := List.mem_of_getElem? hs
+  rw [hev, feedVal_cstrOf _ env cfg.cstr hmem]
+  unfold kineticRhs
+  congr 1
+  · congr 1
+    apply List.map_congr_left
+    intro r hr
+    rw [rateVal_explicit sys.subst _ cfg.paramExprs hsub env r (hreacN r hr) hsubsN
+      (fun uk huk => hukN uk (mem_oriUk.mpr ⟨r, hr, huk⟩)) (fun uk k hp hns _ => hbind r hr uk k hp hns) (hspec.2.2 r hr).1]
+  · by_cases hc : cfg.cstr = true
+    · -- the CSTR keys are parameter symbols (or overridden constants): defined in `variables`
+      have hdm : ∀ k ∈ cstrKeys (cstrOf cfg.cstr sys.subst),
+          dmem (mkVars sys.subst (ks ++ cstrKeys (cstrOf cfg.cstr sys.subst)) cfg.paramExprs) k = true := by
+        intro k hk
+        by_cases hm : k ∈ dkeys cfg.paramExprs
+        · cases hv : dget? cfg.paramExprs k with
+          | none => exact absurd hm (dget?_eq_none_iff.mp hv)
+          | some v => simp [dmem, dget?_mkVars_subs _ _ _ hsub hv]
+        · exact (dmem_mkVars_not_subs _ _ _ hm).mpr (Or.inl (List.mem_append_right _ hk))
+      have hfr : "feedratio" ∈ cstrKeys (cstrOf cfg.cstr sys.subst) := by simp [hc, cstrOf, cstrKeys]
+      have hfc : ("fc_" ++ s) ∈ cstrKeys (cstrOf cfg.cstr sys.subst) := by
+        simp only [hc, cstrOf, if_true, cstrKeys, List.map_map, List.mem_cons, List.mem_map, Function.comp_def]
+        exact Or.inr ⟨s, hmem, rfl⟩
+      have hs' : s ∉ dkeys cfg.paramExprs := fun hk => hsubsN s hk hmem
+      have hds : dmem (mkVars sys.subst (ks ++ cstrKeys (cstrOf cfg.cstr sys.subst)) cfg.paramExprs) s = true :=
+        (dmem_mkVars_not_subs _ _ _ hs').mpr (Or.inr hmem)
+      rw [if_pos hc, if_pos hc, cval_eq_pval _ _ _ hsub env (hdm _ hfr), cval_eq_pval _ _ _ hsub env (hdm _ hfc),
+        cval_eq_pval _ _ _ hsub env hds, pval_of_not_subs cfg.paramExprs env hs']
+    · rw [if_neg hc, if_neg hc]
+
+/-- **Binding invariance in the user's terms.**  For one system and one set of substitutions, the build with free
+    parameters — its exposed named constants bound to their stored values — and the build with inlined parameters both
+    evaluate to the same `Nᵀ·r` of the user's data, expression by expression.  (No hypothesis on shared keys is needed here:
+    two named constants sharing a key with different values make the binding hypothesis unsatisfiable.) -/
+theorem binding_invariance_explicit (cfg : Cfg) (sys : Sys) (oF oI : OdeSys) (hnd : sys.subst.Nodup)
+    (hsub : (dkeys cfg.subs).Nodup) (hF : buildRhs (freeOf cfg) sys = .ok oF) (hI : buildRhs (inlinedOf cfg) sys = .ok oI)
+    (hnc : noCapture sys (dkeys cfg.subs) cfg.cstr = true) (env : String → R)
+    (hbind : ∀ r ∈ sys.rxns, ∀ uk k, r.param = .named uk k → uk ∉ dkeys cfg.subs → env uk = algebraMap ℚ R k) :
+    ∀ (i : ℕ) (s : String), sys.subst[i]? = some s → ∃ e₁ e₂, oF.exprs[i]? = some e₁ ∧ oI.exprs[i]? = some e₂ ∧
+      ev env e₁ = kineticRhs cfg.subs cfg.cstr env sys.rxns s ∧ ev env e₂ = kineticRhs cfg.subs cfg.cstr env sys.rxns s := by
+  intro i s hs
+  obtain ⟨e₁, h1, v1⟩ := (rhs_is_kinetic_model (freeOf cfg) sys oF hnd hsub hF hnc env (fun _ => hbind)).2.2.2 i s hs
+  obtain ⟨e₂, h2, v2⟩ := (rhs_is_kinetic_model (inlinedOf cfg) sys oI hnd hsub hI hnc env (fun hc => by cases hc)).2.2.2 i s hs
+  exact ⟨e₁, e₂, h1, h2, v1, v2⟩
+
+/-- **The two entry points agree, in the user's terms**: `get_odesys(include_params=False, cstr=b)` and
+    `_create_odesys(cstr b)` both evaluate to the same `Nᵀ·r` of the user's data. -/
+theorem builders_agree_explicit (sys : Sys) (b pn pn' : Bool) (o₁ : OdeSys) (o₂ : OdeSys') (hnd : sys.subst.Nodup)
+    (h₁ : buildRhs { includeParams := false, subs := [], cstr := b, pyNums := pn } sys = .ok o₁)
+    (h₂ : buildRhs' { cstr := b, paramExprs := [], pyNums := pn' } sys = .ok o₂)
+    (hnc : noCapture sys [] b = true) (env : String → R)
+    (hbind : ∀ r ∈ sys.rxns, ∀ uk k, r.param = .named uk k → env uk = algebraMap ℚ R k) :
+    ∀ (i : ℕ) (s : String), sys.subst[i]? = some s → ∃ e₁ e₂, o₁.exprs[i]? = some e₁ ∧ o₂.exprs[i]? = some e₂ ∧
+      ev env e₁ = kineticRhs [] b env sys.rxns s ∧ ev env e₂ = kineticRhs [] b env sys.rxns s := by
+  intro i s hs
+  obtain ⟨e₁, h1, v1⟩ := (rhs_is_kinetic_model _ sys o₁ hnd (by simp [dkeys]) h₁ (by simpa [dkeys] using hnc) env
+    (fun _ r hr uk k hp _ => hbind r hr uk k hp)).2.2.2 i s hs
+  obtain ⟨e₂, h2, v2⟩ := (rhs'_is_kinetic_model _ sys o₂ hnd (by simp [dkeys]) h₂ (by simpa [dkeys] using hnc) env
+    (fun r hr uk k hp _ => hbind r hr uk k hp)).2.2 i s hs
+  exact ⟨e₁, e₂, h1, h2, v1, v2⟩
+
+/-- **When `get_odesys` accepts** (success characterisation for the theorems above, which all assume an accepted build):
+    at least one reaction; no captured name (`noCapture`); every species of every reaction is a substance; every substance
+    takes part in some reaction, or the tank is fed; substitution keys are keys of the rate model; `'time'` is not used as a
+    name; with `include_params=True` every value-less key is substituted; the constants are sympy numbers.
+    (The converse directions — what an accepted build implies — are `buildRhs_ok` in Proofs and `param_names_spec`.) -/
+theorem get_odesys_accepts (cfg : Cfg) (sys : Sys) (hnd : sys.subst.Nodup) (hsub : (dkeys cfg.subs).Nodup)
+    (hne : sys.rxns ≠ []) (hnc : noCapture sys (dkeys cfg.subs) cfg.cstr = true)
+    (hspecies : ∀ r ∈ sys.rxns, ∀ j ∈ speciesOf r, j ∈ sys.subst)
+    (hpart : cfg.cstr = true ∨ ∀ s ∈ sys.subst, ∃ r ∈ sys.rxns, s ∈ speciesOf r)
+    (hsubs : ∀ k ∈ dkeys cfg.subs, k ∈ cstrKeys (cstrOf cfg.cstr sys.subst) ∨ k ∈ oriUk sys.rxns)
+    (htime : "time" ∉ sys.subst ∧ "time" ∉ oriUk sys.rxns)
+    (hval : cfg.includeParams = true → ∀ r ∈ sys.rxns, ∀ uk, (r.param = .key uk ∨ r.param = .sym uk) → uk ∈ dkeys cfg.subs)
+    (hpy : cfg.pyNums = false) : ∃ o, buildRhs cfg sys = .ok o :=
+  buildRhs_accepts cfg sys hnd hsub hne hnc hspecies hpart hsubs htime hval hpy
 
 /-! ### Parameter names -/
 
@@ -411,5 +527,20 @@ example : buildRhs {} { subst := ["A"], rxns := [] } = .error .typeError ∧
     buildRhs' {} { subst := ["A", "B"], rxns := [{ reac := [("A", 1)], prod := [("B", 1)], param := .key "k" },
                                                   { reac := [("B", 1)], prod := [("A", 1)], param := .key "k" }] } = .error .valueError := by
   refine ⟨?_, ?_, ?_, ?_, ?_⟩ <;> rfl
+
+/-- the hypotheses of `get_odesys_accepts` hold for the example system (free parameters, stirred tank) -/
+example : ∃ o, buildRhs { includeParams := false, cstr := true } exSys = .ok o :=
+  get_odesys_accepts _ _ (by decide) (by decide) (by decide) (by decide +kernel) (by decide +kernel) (Or.inl rfl)
+    (by decide) (by decide +kernel) (by intro h; cases h) rfl
+
+/-- `noCapture` holds for an ordinary system (with and without substitutions / CSTR) … -/
+example : noCapture exSys [] false = true ∧ noCapture exSys ["k3", "k4", "feedratio"] true = true := by
+  constructor <;> decide +kernel
+
+/-- … and fails exactly on the witness of the name-capture defect (and on its substituted variant: substance `K`, unique key
+    `K`, substitution for `K`), so `rhs_is_kinetic_model` does not apply there — while the internal `rhs_is_NT_r` does. -/
+example : noCapture captureSys [] false = false ∧
+    noCapture { subst := ["A", "K"], rxns := [{ reac := [("A", 1)], prod := [("K", 1)], param := .named "K" 3 }] } ["K"] true = false := by
+  constructor <;> decide +kernel
 
 end ChemModel.C04
